@@ -399,8 +399,8 @@ func runEngineCase(c *eCase) eObs {
 	if d.err != nil {
 		obs.Err = true
 		obs.ErrMsg = d.err.Error()
-		if len(obs.ErrMsg) > 300 {
-			obs.ErrMsg = obs.ErrMsg[:300]
+		if len(obs.ErrMsg) > 3000 {
+			obs.ErrMsg = obs.ErrMsg[:3000]
 		}
 	}
 	obs.PrimeKeys = []string{}
